@@ -410,9 +410,9 @@ func regC01(add addFn, p pFn) {
 		name                                string
 		entries, override, pac, prepop, seq int
 		tier                                string
-	}{{"base", 1, 0, 0, 0, 1, "quick"}, {"override", 1, 1, 0, 0, 1, "quick"}, {"pac", 1, 0, 1, 0, 1, "quick"}, {"prepopulated", 1, 0, 0, 1, 1, "quick"}, {"e2-seq2", 2, 0, 0, 0, 2, "thorough"}} {
+	}{{"base", 1, 0, 0, 0, 1, "quick"}, {"override", 1, 1, 0, 0, 1, "quick"}, {"pac", 1, 0, 1, 0, 1, "quick"}, {"prepopulated", 1, 0, 0, 1, 1, "quick"}, {"e2", 2, 0, 0, 0, 1, "thorough"}, {"seq2", 1, 0, 0, 0, 2, "thorough"}} {
 		add(&Instance{Property: "C01", Name: "verify-" + v.name, Entry: "service.VH_C01_VerifyAPREQ", Params: p("entries", v.entries, "override", v.override, "pac", v.pac, "prepopulated", v.prepop, "maxseq", v.seq, "maxstr", 1, "maxbits", 4),
-			Stubs: c01Stubs, Logic: "QF_UFBV", Tier: v.tier, Replay: "stubbed", Reach: []string{"accepted", "rejected"}, TimeoutS: 1500,
+			Stubs: c01Stubs, Logic: "QF_UFBV", Tier: v.tier, Replay: "stubbed", Reach: []string{"accepted", "rejected"}, TimeoutS: 6000, MaxPaths: 600000,
 			Bound: "keytab entries as given, 1-byte names, ticket sname 1..2 components, decoded sequences (addresses, authorization data, name components) of 0..maxseq elements, strings 0..1 bytes, flags 0..4 bytes, skew in (0, 2^50 ns), clock 1970..2262, all integers full range"})
 	}
 }
